@@ -113,6 +113,18 @@ def recipes_for(ctx, rows, per_setting):
                         "u": rng.uniform(3.0, 12.0) / (max(gram[i][i] for i in range(3)) ** 0.5),
                         "asym": asym, "slab": [[-1, 0, 0], [0, 0, 1]], "route": "params", "decimals": rng.choice([12, 9, 12]),
                         "src": "file-precision special positions"})
+    # sites at lattice points written as integers ([[0, 0, 0]], [[1, 0, -1]]): every operation with a translation part must
+    # still move them by that fraction
+    for i, r in enumerate(rows):
+        if i % ctx.pick(4, 1):
+            continue
+        gram = xtal.sym_gram(r["ops"], rng)
+        z = rng.choice(xtal.ELEMENTS)
+        out.append({"number": r["number"], "choice": r["choice"], "table_ops": r["ops"], "n": 12, "gram": gram,
+                    "u": rng.uniform(3.0, 12.0) / (max(gram[i2][i2] for i2 in range(3)) ** 0.5),
+                    "asym": [{"z": z, "p": [12 * rng.randint(-1, 1) for _ in range(3)], "occ": 12, "label": "%s1" % xtal.SYMBOLS[z]}],
+                    "slab": [[0, 0, 0], [0, 1, 0]], "route": "params", "decimals": 0, "int_positions": True,
+                    "src": "integer coordinates"})
     return out
 
 
